@@ -443,9 +443,7 @@ impl GitignoreBuilder {
         if line.starts_with("#") {
             return Ok(self);
         }
-        if !line.ends_with("\\ ") {
-            line = line.trim_right();
-        }
+        line = trim_trailing_spaces(line);
         if line.is_empty() {
             return Ok(self);
         }
@@ -534,6 +532,38 @@ impl GitignoreBuilder {
         // release.
         self.case_insensitive = yes;
         Ok(self)
+    }
+}
+
+/// Removes trailing spaces the way git does: only unescaped spaces (not tabs
+/// or other whitespace) at the end of the line are dropped, where a backslash
+/// escapes the character that follows it. For example, `a\ ` followed by a
+/// space keeps `a\ ` (the file name `a `).
+fn trim_trailing_spaces(line: &str) -> &str {
+    let bytes = line.as_bytes();
+    let mut first_trailing_space = None;
+    let mut i = 0;
+    while i < bytes.len() {
+        match bytes[i] {
+            b' ' => {
+                if first_trailing_space.is_none() {
+                    first_trailing_space = Some(i);
+                }
+            }
+            b'\\' => {
+                i += 1;
+                if i >= bytes.len() {
+                    return line;
+                }
+                first_trailing_space = None;
+            }
+            _ => first_trailing_space = None,
+        }
+        i += 1;
+    }
+    match first_trailing_space {
+        Some(i) => &line[..i],
+        None => line,
     }
 }
 
